@@ -17,7 +17,7 @@ def run(run):
         os.makedirs(os.path.join(d, "p"))
         open(os.path.join(d, "p", "Sink.java"), "w").write(G.kitchen_sink())
         import random
-        for i in range(3 if run.tier == "quick" else 12):
+        for i in range(3 if run.depth == "quick" else 12):
             g = G.Gen(random.Random(run.seed * 100 + i), G.Opts(unique=True, classes=1, methods=3, stmts=6, depth=2))
             open(os.path.join(d, "p", "F%d.java" % i), "w").write(g.file("K%d_" % i)[0])
         h = C.Harness()
